@@ -28,6 +28,27 @@ def dead (H : List Nat) (n0 : Nat) (hookOf : List (Nat × Nat)) (h : Nat) : Nat 
 
 def att (hookOf : List (Nat × Nat)) (h : Nat) : Nat := hookOf.countP (fun q => q.2 == h)
 
+/-- hooks `h` added in flight and waiting for their process to finish -/
+def lateHeld (late : List (Nat × Nat)) (h : Nat) : Nat := late.countP (fun q => q.2 == h)
+
+theorem lateHeld_split (late : List (Nat × Nat)) (pid h : Nat) :
+    lateHeld (late.filter (fun q => q.1 != pid)) h + ((late.filter (fun q => q.1 == pid)).map (·.2)).count h
+      = lateHeld late h := by
+  unfold lateHeld
+  induction late with
+  | nil => simp
+  | cons q t ih =>
+    simp only [List.filter_cons, List.countP_cons]
+    by_cases hq : q.1 = pid
+    · have h1 : (q.1 != pid) = false := by simp [hq]
+      have h2 : (q.1 == pid) = true := by simp [hq]
+      simp only [h1, h2, Bool.false_eq_true, if_false, if_true, List.map_cons, List.count_cons]
+      omega
+    · have h1 : (q.1 != pid) = true := by simp [hq]
+      have h2 : (q.1 == pid) = false := by simp [hq]
+      simp only [h1, h2, Bool.false_eq_true, if_false, if_true, List.countP_cons]
+      omega
+
 theorem dead_le_att (H : List Nat) (n0 : Nat) (hookOf : List (Nat × Nat)) (h : Nat) :
     dead H n0 hookOf h ≤ att hookOf h := by
   apply List.countP_mono_left
@@ -59,6 +80,15 @@ theorem hld_set (L : List Proc) (i : Nat) (x p : Proc) (h : Nat) (hp : L[i]? = s
 @[simp] theorem setFut_hookOf (e : Eff) (f : Nat) (x : Fut) : (e.setFut f x).ps.hookOf = e.ps.hookOf := rfl
 @[simp] theorem setProc_nid (e : Eff) (i : Nat) (x : Proc) : (e.setProc i x).ps.nid = e.ps.nid := rfl
 @[simp] theorem setProc_hookOf (e : Eff) (i : Nat) (x : Proc) : (e.setProc i x).ps.hookOf = e.ps.hookOf := rfl
+@[simp] theorem setFut_late (e : Eff) (f : Nat) (x : Fut) : (e.setFut f x).ps.late = e.ps.late := rfl
+@[simp] theorem setFut_lateAtt (e : Eff) (f : Nat) (x : Fut) : (e.setFut f x).ps.lateAtt = e.ps.lateAtt := rfl
+@[simp] theorem setProc_late (e : Eff) (i : Nat) (x : Proc) : (e.setProc i x).ps.late = e.ps.late := rfl
+@[simp] theorem setProc_lateAtt (e : Eff) (i : Nat) (x : Proc) : (e.setProc i x).ps.lateAtt = e.ps.lateAtt := rfl
+@[simp] theorem clearLate_nid (e : Eff) (i : Nat) : (e.clearLate i).ps.nid = e.ps.nid := rfl
+@[simp] theorem clearLate_hookOf (e : Eff) (i : Nat) : (e.clearLate i).ps.hookOf = e.ps.hookOf := rfl
+@[simp] theorem clearLate_lateAtt (e : Eff) (i : Nat) : (e.clearLate i).ps.lateAtt = e.ps.lateAtt := rfl
+@[simp] theorem clearLate_late (e : Eff) (i : Nat) :
+    (e.clearLate i).ps.late = e.ps.late.filter (fun q => q.1 != i) := rfl
 @[simp] theorem addObs_nid (e : Eff) (o : Obs) : (addObs e o).ps.nid = e.ps.nid := rfl
 @[simp] theorem addObs_hookOf (e : Eff) (o : Obs) : (addObs e o).ps.hookOf = e.ps.hookOf := rfl
 @[simp] theorem push_nid (e : Eff) (sp : Spec) (hook : Nat) (tagged : Bool) :
@@ -67,39 +97,49 @@ theorem push_hookOf (e : Eff) (sp : Spec) (hook : Nat) (tagged : Bool) :
     (e.push sp hook tagged).ps.hookOf = if hook = 0 then e.ps.hookOf else (e.ps.nid, hook) :: e.ps.hookOf := rfl
 
 /-- hook accounting inside one handler invocation; `σ h` = hooks `h` taken from the popped event's
-    attachments and not yet handed to a process or run -/
+    attachments (or from a finishing process) and not yet handed to a process or run.  Hooks added to an
+    event whose process is in flight (`late`) are attachments of their own (`lateAtt`). -/
 structure HK (H : List Nat) (n0 : Nat) (σ : Nat → Nat) (e : Eff) : Prop where
   nid : e.ps.nid = n0 + e.specs.length
-  fresh : ∀ q ∈ e.ps.hookOf, q.1 < e.ps.nid
-  bal : ∀ h, hookRuns e.ps.obs h + hld e.ps.procs h + σ h ≤ dead H n0 e.ps.hookOf h
+  bal : ∀ h, hookRuns e.ps.obs h + hld e.ps.procs h + lateHeld e.ps.late h + σ h
+      ≤ dead H n0 e.ps.hookOf h + e.ps.lateAtt.count h
+
+/-- the balance in difference form -/
+theorem HK_gen {H : List Nat} {n0 : Nat} {σ σ' : Nat → Nat} {e e' : Eff} (k : Nat) (hk : HK H n0 σ e)
+    (hn : e'.ps.nid = e.ps.nid + k) (hs : e'.specs.length = e.specs.length + k)
+    (hb : ∀ h, hookRuns e'.ps.obs h + hld e'.ps.procs h + lateHeld e'.ps.late h + σ' h
+          + (dead H n0 e.ps.hookOf h + e.ps.lateAtt.count h)
+        ≤ hookRuns e.ps.obs h + hld e.ps.procs h + lateHeld e.ps.late h + σ h
+          + (dead H n0 e'.ps.hookOf h + e'.ps.lateAtt.count h)) :
+    HK H n0 σ' e' := by
+  have hnid := hk.nid
+  refine ⟨by omega, ?_⟩
+  intro h
+  have h1 := hb h
+  have h2 := hk.bal h
+  omega
 
 theorem HK_of {H : List Nat} {n0 : Nat} {σ σ' : Nat → Nat} {e e' : Eff} (k : Nat) (hk : HK H n0 σ e)
     (hn : e'.ps.nid = e.ps.nid + k) (hs : e'.specs.length = e.specs.length + k)
     (hh : e'.ps.hookOf = e.ps.hookOf ∨ (1 ≤ k ∧ ∃ hook, e'.ps.hookOf = (e.ps.nid, hook) :: e.ps.hookOf))
-    (hb : ∀ h, hookRuns e'.ps.obs h + hld e'.ps.procs h + σ' h ≤ hookRuns e.ps.obs h + hld e.ps.procs h + σ h) :
+    (hb : ∀ h, hookRuns e'.ps.obs h + hld e'.ps.procs h + σ' h ≤ hookRuns e.ps.obs h + hld e.ps.procs h + σ h)
+    (hl : e'.ps.late = e.ps.late := by rfl) (ha : e'.ps.lateAtt = e.ps.lateAtt := by rfl) :
     HK H n0 σ' e' := by
-  have hnid := hk.nid
-  refine ⟨by omega, ?_, ?_⟩
-  · intro q hq
-    rcases hh with hh | ⟨hk1, hook, hh⟩
-    · rw [hh] at hq; have := hk.fresh q hq; omega
-    · rw [hh] at hq
-      rcases List.mem_cons.mp hq with rfl | hq
-      · simp only []; omega
-      · have := hk.fresh q hq; omega
-  · intro h
-    have h1 := hb h
-    have h2 := hk.bal h
-    have h3 : dead H n0 e.ps.hookOf h ≤ dead H n0 e'.ps.hookOf h := by
-      rcases hh with hh | ⟨_, hook, hh⟩
-      · rw [hh]; exact Nat.le_refl _
-      · rw [hh]; unfold dead; rw [List.countP_cons]; omega
-    omega
+  refine HK_gen k hk hn hs ?_
+  intro h
+  have h1 := hb h
+  have h3 : dead H n0 e.ps.hookOf h ≤ dead H n0 e'.ps.hookOf h := by
+    rcases hh with hh | ⟨_, hook, hh⟩
+    · rw [hh]; exact Nat.le_refl _
+    · rw [hh]; unfold dead; rw [List.countP_cons]; omega
+  rw [hl, ha]
+  omega
 
 theorem HK_same {H : List Nat} {n0 : Nat} {σ : Nat → Nat} {e e' : Eff} (hk : HK H n0 σ e)
     (hn : e'.ps.nid = e.ps.nid) (hs : e'.specs = e.specs) (hh : e'.ps.hookOf = e.ps.hookOf)
-    (ho : e'.ps.obs = e.ps.obs) (hp : ∀ h, hld e'.ps.procs h = hld e.ps.procs h) : HK H n0 σ e' :=
-  HK_of 0 hk (by omega) (by rw [hs]; rfl) (Or.inl hh) (fun h => by rw [ho, hp h]; exact Nat.le_refl _)
+    (ho : e'.ps.obs = e.ps.obs) (hp : ∀ h, hld e'.ps.procs h = hld e.ps.procs h)
+    (hl : e'.ps.late = e.ps.late := by rfl) (ha : e'.ps.lateAtt = e.ps.lateAtt := by rfl) : HK H n0 σ e' :=
+  HK_of 0 hk (by omega) (by rw [hs]; rfl) (Or.inl hh) (fun h => by rw [ho, hp h]; exact Nat.le_refl _) hl ha
 
 theorem HK_push {H : List Nat} {n0 : Nat} {σ : Nat → Nat} {e : Eff} (hk : HK H n0 σ e) (sp : Spec)
     (hook : Nat) (tagged : Bool) : HK H n0 σ (e.push sp hook tagged) := by
@@ -148,6 +188,30 @@ theorem HK_aclosed (H : List Nat) (n0 : Nat) (σ : Nat → Nat) : AClosed (HK H 
     HK_of 1 hk rfl (by simp) (Or.inl rfl) (fun h => Nat.le_refl _)
   crashed := fun e l hk => HK_same hk rfl rfl rfl rfl (fun _ => rfl)
   cancels := fun e l hk => HK_same hk rfl rfl rfl rfl (fun _ => rfl)
+  hookLate := by
+    intro e pid hook hk
+    refine HK_gen 0 hk rfl rfl ?_
+    intro h
+    show hookRuns e.ps.obs h + hld e.ps.procs h + lateHeld (e.ps.late ++ [(pid, hook)]) h + σ h
+          + (dead H n0 e.ps.hookOf h + e.ps.lateAtt.count h)
+        ≤ hookRuns e.ps.obs h + hld e.ps.procs h + lateHeld e.ps.late h + σ h
+          + (dead H n0 e.ps.hookOf h + (hook :: e.ps.lateAtt).count h)
+    unfold lateHeld
+    rw [List.countP_append, List.count_cons]
+    simp only [List.countP_cons, List.countP_nil]
+    omega
+  hookEarly := by
+    intro e id hook hk
+    refine HK_gen 0 hk rfl rfl ?_
+    intro h
+    show hookRuns e.ps.obs h + hld e.ps.procs h + lateHeld e.ps.late h + σ h
+          + (dead H n0 e.ps.hookOf h + e.ps.lateAtt.count h)
+        ≤ hookRuns e.ps.obs h + hld e.ps.procs h + lateHeld e.ps.late h + σ h
+          + (dead H n0 (e.ps.hookOf ++ [(id, hook)]) h + e.ps.lateAtt.count h)
+    unfold dead
+    rw [List.countP_append]
+    omega
+  level := fun e l hk => HK_same hk rfl rfl rfl rfl (fun _ => rfl)
 
 theorem hookRuns_cons (o : Obs) (obs : List Obs) (h : Nat) :
     hookRuns (o :: obs) h = hookRuns obs h + if hookIs h o then 1 else 0 := by
@@ -195,15 +259,17 @@ theorem HK_spawn {H : List Nat} {n0 : Nat} {σ : Nat → Nat} {e : Eff} (pn : Pr
   simp only [spawn_obs, spawn_procs, hld_append, hld]
   omega
 
-/-- a finishing process hands its hooks back to be run -/
+/-- a finishing process hands its hooks — those it started with and those added in flight — back to be run -/
 theorem HK_clear {H : List Nat} {n0 : Nat} {σ : Nat → Nat} {e : Eff} (hk : HK H n0 σ e) (i : Nat) (x p : Proc)
     (hp : e.ps.procs[i]? = some p) (hx : x.hooks = []) :
-    HK H n0 (fun h => σ h + p.hooks.count h) (e.setProc i x) := by
-  refine HK_of 0 hk rfl rfl (Or.inl rfl) ?_
+    HK H n0 (fun h => σ h + (p.hooks ++ lateOf e.ps i).count h) ((e.setProc i x).clearLate i) := by
+  refine HK_gen 0 hk rfl rfl ?_
   intro h
   have := hld_set e.ps.procs i x p h hp
   rw [hx] at this
-  simp only [setProc_procs, setProc_obs, List.count_nil] at this ⊢
+  have hl := lateHeld_split e.ps.late i h
+  simp only [clearLate_procs, clearLate_obs, clearLate_late, clearLate_hookOf, clearLate_lateAtt, setProc_procs,
+    setProc_obs, setProc_late, setProc_hookOf, setProc_lateAtt, List.count_nil, List.count_append, lateOf] at this ⊢
   omega
 
 theorem strip_hooks_eq {p q : Proc} (h : strip p = strip q) : p.hooks = q.hooks := by
